@@ -255,3 +255,46 @@ func fnJobs(g *hc.Gen, budget int) []*job {
 
 var frameBounds = []string{"UNBOUNDED PRECEDING", "UNBOUNDED FOLLOWING", "CURRENT ROW", "0 PRECEDING", "1 PRECEDING", "1 FOLLOWING", "300 PRECEDING", "300 FOLLOWING",
 	"9223372036854775807 FOLLOWING", "9223372036854775807 PRECEDING"}
+
+// jsonPathJobs: the key paths of JSON_OBJECT / JSON output (`AS alias` with dots, brackets, duplicates, empty) and
+// malformed JSON queries through every route that takes one.  Deterministic, run once.
+func jsonPathJobs() []*job {
+	var jobs []*job
+	aliasSets := [][]string{{"a"}, {"a.b"}, {"a.b.c"}, {"a", "a.b"}, {"a.b", "a"}, {"a.b", "a.b.c"}, {"a.b.c", "a.b"}, {"a[0]"}, {"a[0]", "a[1]"}, {"a[1]"}, {"a", "a[0]"}, {"a[0]", "a"},
+		{"a..b"}, {"."}, {".a"}, {"a."}, {""}, {"a", "a"}, {"a.b", "a.b"}, {`a\.b`, "a"}, {"a["}, {"a[x]"}, {"a{"}, {"'"}, {`a."`}, {"a[0].b", "a[0]"}, {"a[0]", "a.b"}, {"a.b", "a[0]"}, {"日本.語"}}
+	q := func(a string) string { return "`" + strings.ReplaceAll(a, "`", "``") + "`" }
+	for _, as := range aliasSets {
+		var lit, col []string
+		for i, a := range as {
+			lit = append(lit, fmt.Sprintf("%d AS %s", i+1, q(a)))
+			col = append(col, fmt.Sprintf("c%d AS %s", i+1, q(a)))
+		}
+		tag := "jsonpath:alias " + strings.Join(as, " + ")
+		jobs = append(jobs, progJob("jsonpath", []string{tag, "route:JSON_OBJECT"}, nil, "SELECT JSON_OBJECT("+strings.Join(lit, ", ")+")"))
+		jobs = append(jobs, progJob("jsonpath", []string{tag, "route:JSON_OBJECT FROM"}, cpu4, "SELECT JSON_OBJECT("+strings.Join(col, ", ")+") FROM t"))
+		jobs = append(jobs, progJob("jsonpath", []string{tag, "route:JSON_AGG(JSON_OBJECT)"}, nil, "SELECT JSON_AGG(JSON_OBJECT("+strings.Join(col, ", ")+")) FROM t"))
+		for _, f := range []string{"JSON", "JSONL"} {
+			jobs = append(jobs, progJob("jsonpath", []string{tag, "route:--format " + f}, []opt{{"--format", f, true}}, "SELECT "+strings.Join(col, ", ")+" FROM t"))
+		}
+		jobs = append(jobs, progJob("jsonpath", []string{tag, "route:CREATE TABLE json AS"}, nil, "CREATE TABLE `o.json` AS SELECT "+strings.Join(col, ", ")+" FROM t", "COMMIT", "SELECT * FROM `o.json`"))
+	}
+	queries := append([]string{"'", `"`, "`", "", ".", "[", "{", "a", "a.b.c", "a['", "''", `""`, "'''", `a.""`, `"a`}, ipJSONQueries...)
+	for _, jq := range queries {
+		s := sqlString(jq)
+		tag := "jsonquery:" + jq
+		add := func(route string, opts []opt, stmts ...string) {
+			jobs = append(jobs, progJob("jsonpath", []string{tag, "route:" + route}, opts, stmts...))
+		}
+		add("JSON_VALUE", nil, "SELECT JSON_VALUE("+s+", '{\"a\":{\"b\":{\"c\":1}}}')")
+		add("JSON_ROW", nil, "SELECT * FROM t WHERE c1 IN JSON_ROW("+s+", '{\"a\":[1,2,3]}')")
+		add("JSON_TABLE", nil, "SELECT * FROM JSON_TABLE("+s+", '{\"a\":[{\"b\":1},{\"b\":2}]}')")
+		add("JSON_INLINE", nil, "SELECT * FROM JSON_INLINE("+s+", '{\"a\":[{\"b\":1},{\"b\":2}]}')")
+		add("JSON()", nil, "SELECT * FROM JSON("+s+", `j.json`)")
+		add("JSONL()", nil, "SELECT * FROM JSONL("+s+", `jl.jsonl`)")
+		add("--json-query on .json", []opt{{"--json-query", jq, true}}, "SELECT * FROM `j.json`")
+		add("--json-query on .jsonl", []opt{{"--json-query", jq, true}}, "SELECT * FROM `jl.jsonl`")
+		add("--json-query on stdin", []opt{{"--json-query", jq, true}, {"--import-format", "JSON", true}}, "SELECT * FROM `j.json`", "SELECT * FROM `jl.jsonl`")
+		add("SET @@JSON_QUERY", nil, "SET @@JSON_QUERY TO "+s, "SELECT * FROM `j.json`", "SELECT * FROM `jl.jsonl`")
+	}
+	return jobs
+}
